@@ -49,7 +49,7 @@ def _eq(a: Any, b: Any) -> bool:
         return a == b
 
 
-def positions(ds, names: dict[str, str], combo: dict, index: Optional[tuple], run_index: int) -> dict[str, int]:
+def positions(ds, names: dict[str, str], combo: dict, index: Optional[tuple], run_index: int, start_time: float = 0.0) -> dict[str, int]:
     """Map dimension -> position for the run with parameter values ``combo``."""
     sel: dict[str, int] = {}
     if "id" in ds.dims and not any(names[k] in ds.dims for k in combo):
@@ -75,14 +75,24 @@ def positions(ds, names: dict[str, str], combo: dict, index: Optional[tuple], ru
         return sel
     for pos, (k, v) in enumerate(combo.items()):
         d = names[k]
+        renamed = False
         if d == "readout_time" and d not in ds.dims and "time" in ds.dims:
             d = "time"  # the parallel path renames the swept readout-time dimension
+            renamed = True
         if d in ds.dims:
             vals = list(ds[d].values)
             hits = [j for j, c in enumerate(vals) if _eq(c, v)]
             if len(hits) != 1:
                 raise LabelError("missing" if not hits else "duplicate", f"{len(hits)} labels equal to {v!r} on dimension {d!r}: {vals!r}")
-            sel[d] = hits[0]
+            sel[d] = [hits[0]] if renamed else hits[0]  # a run keeps its (one-entry) time axis in both layouts
+            if d == "readout_time" and "time" in ds.dims and ds.sizes["time"] > 1:
+                # sequentially executed sweep of the readout time: the merged result keeps one 'time' axis with the absolute
+                # times of all runs; the run owns the entry labelled start + readout time (the others are padding)
+                tv = list(ds["time"].values)
+                th = [j for j, c in enumerate(tv) if _eq(c, float(start_time) + float(v))]
+                if len(th) != 1:
+                    raise LabelError("missing" if not th else "duplicate", f"{len(th)} 'time' labels equal to {float(start_time) + float(v)!r}: {tv!r}")
+                sel["time"] = [th[0]]
         elif f"{d}_id" in ds.dims:
             ids = list(ds[f"{d}_id"].values)
             i = index[pos] if index is not None else None
